@@ -36,6 +36,8 @@ def graphs(n):
 
 
 def name_of(kinds, i):
+    if kinds[i] == 'const' and i % 2:
+        return '_K%d' % i          # identifiers may start with an underscore
     return '%s%d' % (PREFIX[kinds[i]], i)
 
 
@@ -56,8 +58,15 @@ def build(kinds, deps):
                 jn = name_of(kinds, j)
                 sym = jn if kinds[j] == 'const' else jn + 'V'
                 base = values[jn]
-                if (i + idx) % 2:
+                form = (i + idx) % 4
+                if form == 1:
                     expr, val = '%s*2' % sym if idx == 0 else '%s + %s*2' % (expr, sym), (base * 2 if idx == 0 else val + base * 2)
+                elif form == 2:
+                    term, tv = 'shiftLeft(%s, 1)' % sym, base * 2
+                    expr, val = (term, tv) if idx == 0 else ('%s + %s' % (expr, term), val + tv)
+                elif form == 3:
+                    term, tv = 'bitMaskOr((%s), 0)' % sym, base
+                    expr, val = (term, tv) if idx == 0 else ('%s + %s' % (expr, term), val + tv)
                 else:
                     expr, val = '%s + 1' % sym if idx == 0 else '%s + %s' % (expr, sym), (base + 1 if idx == 0 else val + base)
             values[name] = val
@@ -216,12 +225,150 @@ def depkinds(kinds, deps):
 def edge_form(kinds, deps, i, j):
     if kinds[i] in ('const', 'enum'):
         idx = list(deps[i]).index(j)
-        if kinds[i] == 'const' and (i + idx) % 2:
-            return 'expr:mul'
+        if kinds[i] == 'const':
+            return ['expr:add', 'expr:mul', 'expr:shiftLeft', 'expr:bitMaskOr'][(i + idx) % 4]
         return 'expr:add'
     if kinds[j] == 'const':
         return 'array-size' if kinds[i] == 'struct' else 'discriminator'
     return 'type'
+
+
+# ---------------------------------------------------------------------------
+# sack front-end: C++ headers, every declaration order C++ allows
+# ---------------------------------------------------------------------------
+
+SACK_KINDS = ('enum', 'struct', 'union')
+
+
+def sack_graphs(n):
+    for kinds in itertools.product(SACK_KINDS, repeat=n):
+        choices = []
+        for i in range(n):
+            cand = [j for j in range(i)] if kinds[i] != 'enum' else []
+            subsets = []
+            for r in range(len(cand) + 1):
+                subsets += list(itertools.combinations(cand, r))
+            choices.append(subsets)
+        for deps in itertools.product(*choices):
+            yield kinds, deps
+
+
+def sack_build(kinds, deps, variant):
+    """-> (reference defs, {index: C++ text}, expected emitted names).  variant: plain | ns | twice"""
+    n = len(kinds)
+    used = set(j for d in deps for j in d)
+    ns = variant == 'ns'
+
+    def cname(j, ref_from_outside=True):
+        base = '%s%d' % (PREFIX[kinds[j]], j)
+        return ('ns::' + base) if (ns and j in used) else base
+
+    def mname(j):
+        base = '%s%d' % (PREFIX[kinds[j]], j)
+        return ('ns__' + base) if (ns and j in used) else base
+    defs, cpp = [], {}
+    for i in range(n):
+        base = '%s%d' % (PREFIX[kinds[i]], i)
+        body = None
+        if kinds[i] == 'enum':
+            defs.append(S.Enum(mname(i), [(base + 'V', i + 1)]))
+            body = 'enum %s { %sV = %d };' % (base, base, i + 1)
+        elif kinds[i] == 'struct':
+            members, lines = [], []
+            for j in deps[i]:
+                members.append(S.M('m%d' % j, mname(j)))
+                lines.append('%s m%d;' % (cname(j), j))
+                if variant == 'twice':
+                    members.append(S.M('n%d' % j, mname(j), S.FIXED, 2))
+                    lines.append('%s n%d[2];' % (cname(j), j))
+            members.append(S.M('x', 'u8'))
+            lines.append('uint8_t x;')
+            defs.append(S.Struct(mname(i), members))
+            body = 'struct %s { %s };' % (base, ' '.join(lines))
+        else:
+            arms, lines = [S.Arm(0, 'u8', 'a')], ['uint8_t a;']
+            for k, j in enumerate(deps[i]):
+                arms.append(S.Arm(k + 1, mname(j), 'm%d' % j))
+                lines.append('%s m%d;' % (cname(j), j))
+            defs.append(S.Union(mname(i), arms))
+            body = 'union %s { %s };' % (base, ' '.join(lines))
+        if ns and i in used:
+            body = 'namespace ns { %s }' % body
+        cpp[i] = body
+    # sack emits the structs and enums declared at the top level of the header and whatever they reach
+    roots = [i for i in range(n) if kinds[i] != 'union' and not (ns and i in used)]
+    reach = set()
+
+    def visit(i):
+        if i not in reach:
+            reach.add(i)
+            for j in deps[i]:
+                visit(j)
+    for i in roots:
+        visit(i)
+    emitted = [mname(i) for i in sorted(reach)]
+    return defs, cpp, emitted
+
+
+def judge_sack(job):
+    graphs_, tier = job
+    T.setup_repo()
+    out = {'viol': [], 'graphs': 0, 'runs': 0}
+    seen = {}
+    try:
+        for kinds, deps in graphs_:
+            out['graphs'] += 1
+            n = len(kinds)
+            for variant in ('plain', 'ns', 'twice'):
+                if variant != 'plain' and not any(deps):
+                    continue
+                defs, cpp, emitted = sack_build(kinds, deps, variant)
+                ref = R.Ref(defs)
+                for order in itertools.permutations(range(n)):
+                    # C++ needs a type declared before it is used
+                    if any(order.index(j) > order.index(i) for i in range(n) for j in deps[i]):
+                        continue
+                    text = '#include <stdint.h>\n' + '\n'.join(cpp[i] for i in order) + '\n'
+                    res = T.compile_text(text, outs=('python',), mode='sack', suffix='hpp')
+                    out['runs'] += 1
+
+                    def viol(key, detail):
+                        seen[key] = seen.get(key, 0) + 1
+                        out['viol'].append((key, {'sack': True, 'header': text, 'detail': detail} if seen[key] <= 2 else None))
+                    try:
+                        if not res.ok:
+                            viol('sack|prophyc-fails|%s|%s' % (res.exc_type, variant), str(res.exc)[:300])
+                            continue
+                        names = [x.name for x in res.nodes['m']]
+                        if sorted(names) != sorted(emitted):
+                            viol('sack|output-not-the-definitions|%s' % variant, 'output lists %s, expected each of %s once' % (
+                                names, emitted))
+                            continue
+                        pos = dict((nm, p) for p, nm in enumerate(names))
+                        byname = dict((d.name, d) for d in defs)
+                        bad = [(nm, dep) for nm in names for dep in S.deps_of(byname[nm]) if pos[dep] > pos[nm]]
+                        if bad:
+                            viol('sack|dependency-after-dependent|%s' % variant, '%s before %s in %s' % (bad[0][0], bad[0][1], names))
+                            continue
+                        try:
+                            mod = T.import_generated(res.files['m.py'])
+                        except Exception as e:      # noqa
+                            viol('sack|python-import-fails|%s|%s' % (type(e).__name__, variant), str(e)[:300])
+                            continue
+                        nodes = dict((x.name, x) for x in res.nodes['m'])
+                        for d in defs:
+                            if isinstance(d, (S.Struct, S.Union)) and d.name in nodes:
+                                lay = ref.layout(d.name)
+                                if (nodes[d.name].byte_size, nodes[d.name].alignment) != (lay.size, lay.align):
+                                    viol('sack|layout-differs|%s' % variant, '%s: model %s, rules %s' % (
+                                        d.name, (nodes[d.name].byte_size, nodes[d.name].alignment), (lay.size, lay.align)))
+                                    break
+                    finally:
+                        if res.outdir:
+                            shutil.rmtree(res.outdir, ignore_errors=True)
+    except Exception:       # noqa
+        out['harness_error'] = traceback.format_exc()
+    return out
 
 
 def select(tier, seed):
@@ -255,6 +402,26 @@ def run(ctx):
             ctx.violation_counts[key] = ctx.violation_counts.get(key, 0) + 1
             if art is not None and len(ctx.violations.setdefault(key, [])) < 3:
                 ctx.violations[key].append(art)
+    # sack: needs libclang; when it is missing the front-end itself refuses and the sub-check is skipped (recorded)
+    from prophyc.parsers.sack import SackParser
+    if SackParser.check():
+        sg = []
+        for n in ((1, 2, 3) if ctx.tier == 'quick' else (1, 2, 3, 4)):
+            sg += list(sack_graphs(n))
+        for res in ctx.pmap(judge_sack, [(sg[k:k + 12], ctx.tier) for k in range(0, len(sg), 12)]):
+            if 'harness_error' in res:
+                raise HarnessError(res['harness_error'])
+            ctx.cov['states'] += res['graphs']
+            ctx.cov['transitions'] += res['runs']
+            ctx.cov['traces_validated_against_impl'] += res['runs']
+            ctx.cov['evaluations'] += res['runs']
+            ctx.cov['sack_runs'] = ctx.cov.get('sack_runs', 0) + res['runs']
+            for key, art in res['viol']:
+                ctx.violation_counts[key] = ctx.violation_counts.get(key, 0) + 1
+                if art is not None and len(ctx.violations.setdefault(key, [])) < 3:
+                    ctx.violations[key].append(art)
+    else:
+        ctx.cap('sack sub-check skipped: libclang not available')
     for key in [k for k, v in ctx.violations.items() if not v]:
         del ctx.violations[key]
     ctx.cov['rule'] = ('states = definition sets: every assignment of kinds {constant, enum, typedef, struct, union} to n <= 4 '
@@ -263,10 +430,24 @@ def run(ctx):
                        'transitions = prophyc --isar runs, one per input permutation class (permutations that differ only '
                        'across element kinds are regrouped by the parser and run once). Checked: output is a permutation of '
                        'the definitions, every dependency precedes its dependent, the Python module imports, layouts and '
-                       'constants equal the reference for every order. non-trivial = set with at least one dependency.')
+                       'constants equal the reference for every order. non-trivial = set with at least one dependency. '
+                       'sack: every set of <= 3 (4) enums / structs / unions as a C++ header (plain, dependencies in a namespace, '
+                       'every dependency used by two fields) in every declaration order C++ allows.')
 
 
 def replay(art):
+    if art.get('sack'):
+        res = T.compile_text(art['header'], outs=('python',), mode='sack', suffix='hpp')
+        if not res.ok:
+            return 'prophyc --sack fails: %s' % res.exc
+        names = [x.name for x in res.nodes['m']]
+        if len(names) != len(set(names)):
+            return 'header:\n%s\noutput lists %s' % (art['header'], names)
+        try:
+            T.import_generated(res.files['m.py'])
+        except Exception as e:      # noqa
+            return 'header:\n%s\ngenerated module does not import: %r' % (art['header'], e)
+        return 'header:\n%s\n%s' % (art['header'], art['detail']) if 'layout' in art['detail'] or 'before' in art['detail'] else None
     res = T.compile_text(art['xml'], outs=('python',), mode='isar')
     if not res.ok:
         return 'prophyc fails: %s' % res.exc
